@@ -52,6 +52,11 @@ def main():
         sys.exit(rc)
     ctx = core.Ctx(a.pid, a.tier, seed)
     try:
+        # every generated model file is brought in line with the tree under test before anything is built
+        # (fail closed: a failing translator leaves a stub that does not compile); the check's own translate step
+        # then records the obligation for the files its theorems depend on
+        from tools import translate_all
+        translate_all.run(strict=False)
         mod.run(ctx)
     except Exception as e:   # machinery failure is reported as a violation without input (fail closed)
         tb = traceback.format_exc()
